@@ -582,6 +582,15 @@ pub mod compressor {
     /// Region size in bytes.
     pub const REGION_BYTES: usize = CompressorRegion::BYTES;
 
+    /// The real `CompressorSpace::test_and_mark` (a static function on the mark bitmap).
+    pub fn test_and_mark<VM: VMBinding>(object: ObjectReference) -> bool {
+        crate::policy::compressor::compressorspace::CompressorSpace::<VM>::test_and_mark(object)
+    }
+    /// The real `CompressorSpace::is_marked`.
+    pub fn is_marked<VM: VMBinding>(object: ObjectReference) -> bool {
+        crate::policy::compressor::compressorspace::CompressorSpace::<VM>::is_marked(object)
+    }
+
     /// Wrapper around the real `ForwardingMetadata`.
     pub struct Forwarding<VM: VMBinding>(ForwardingMetadata<VM>);
 
